@@ -1,5 +1,6 @@
 """Shared helpers: build canmatrix frames from case descriptions, observe decode/encode, generators."""
 import logging
+import decimal
 import math
 import struct
 
@@ -51,8 +52,32 @@ def mkframe(fd, name="F", arbid=0x123, extended=False):
     fr = cm.Frame(name, arbitration_id=cm.ArbitrationId(arbid, extended), size=fd["size"])
     for d in fd["sigs"]:
         fr.add_signal(mksignal(d))
+    if fd.get("sc"):
+        # physical scaling, limits and start values are no business of the raw codec: signals carry some
+        for k, s_ in enumerate(fr.signals):
+            if not s_.is_float:
+                s_.offset = decimal.Decimal(k + 3)
+                s_.factor = decimal.Decimal("0.5")
+                s_.min = decimal.Decimal(k + 3)
+                s_.max = decimal.Decimal(k + 3) + (1 << min(s_.size, 20))
+                s_.initial_value = decimal.Decimal(k + 4)
     fr.is_complex_multiplexed = bool(fd.get("cx", False))
-    if fd.get("ct", False):
+    if fd.get("ct", False) and fd.get("ctfull"):
+        # a container as the ARXML reader builds it: header signals (24 bit id, 8 bit length) and two PDUs with two signals each
+        fr.signals = []
+
+        def mot(nm, size, dbc_start):
+            sg = cm.Signal(name=nm, size=size, is_signed=False, is_little_endian=False)
+            sg.set_startbit(dbc_start, bitNumbering=1)
+            return sg
+        fr.add_signal(mot("Header_ID", 24, 7))
+        fr.add_signal(mot("Header_DLC", 8, 7 + 24))
+        for pid, nm in ((10, "pdu1"), (11, "pdu2")):
+            pdu = cm.Pdu(name=nm, id=pid, size=2)
+            pdu.add_signal(mot(nm + "_a", 8, 7))
+            pdu.add_signal(mot(nm + "_b", 8, 7 + 8))
+            fr.add_pdu(pdu)
+    elif fd.get("ct", False):
         fr.add_pdu(cm.Pdu(name="P", size=1, id=1))
     return fr
 
@@ -98,9 +123,36 @@ class edited_in_place(object):
         return False
 
 
+def _decode_call(fr, data, api, at, ae, db):
+    if api == "unpack":
+        return fr.unpack(bytes(data), allow_truncated=at, allow_exceeded=ae)
+    if api == "mdecode":
+        return db.decode(fr.arbitration_id, bytes(data))
+    return fr.decode(bytes(data))
+
+
+def _plain(x):
+    """a decode result as plain data (also the nested results of a PDU container)"""
+    if isinstance(x, dict):
+        return {str(k): _plain(v) for k, v in x.items()}
+    if isinstance(x, (list, tuple)):
+        return [_plain(v) for v in x]
+    if hasattr(x, "raw_value"):
+        return ["raw", repr(x.raw_value)]
+    return repr(x)
+
+
+def _normal(fr, d):
+    out = {}
+    for k, v in d.items():
+        out[k] = val_to_json(v.signal, v.raw_value)
+    return {"ok": out}
+
+
 def observe_decode(fr, data, api="decode", at=False, ae=False, db=None, _again=True):
     """the same call is made twice on the same objects: a result that depends on what was decoded before is reported as an error;
-    so is a result that differs after the signals were moved away and back in place"""
+    so is a result that differs after the signals were moved away and back in place, and a result that changes when another
+    payload is decoded afterwards"""
     if _again:
         if not fr.is_pdu_container and not getattr(fr, "_verif_detour_done", False):
             # the very first use of these objects is with the signals somewhere else (then moved to their place)
@@ -118,14 +170,35 @@ def observe_decode(fr, data, api="decode", at=False, ae=False, db=None, _again=T
             third = observe_decode(fr, data, api, at, ae, db, _again=False)
             if first != third:
                 return {"err": "exc:result-differs-after-signals-were-edited-in-place"}
+            # a result belongs to its caller: decoding another payload afterwards does not change it
+            try:
+                kept = _decode_call(fr, data, api, at, ae, db)
+                before = _normal(fr, kept)
+                try:
+                    _decode_call(fr, [b ^ 0xFF for b in data], api, at, ae, db)
+                except Exception:  # noqa
+                    pass
+                if _normal(fr, kept) != before:
+                    return {"err": "exc:an-earlier-result-changed-when-another-payload-was-decoded"}
+            except Exception:  # noqa
+                pass
+        elif api == "unpack" and ((at and len(data) < fr.size) or (ae and len(data) > fr.size)):
+            # containers are not modelled; the length rule is checked on the implementation itself:
+            # a short payload reads as if padded with 0xFF, a long one as if cut
+            same = list(data[:fr.size]) + [0xFF] * max(0, fr.size - len(data))
+            try:
+                a = _plain(_decode_call(fr, data, api, at, ae, db))
+            except Exception as e:  # noqa
+                a = "raised " + errname(e)
+            try:
+                b = _plain(_decode_call(fr, same, api, at, ae, db))
+            except Exception as e:  # noqa
+                b = "raised " + errname(e)
+            if a != b:
+                return {"err": "exc:container-with-opt-in-not-read-as-the-padded-or-cut-payload"}
         return first
     try:
-        if api == "unpack":
-            d = fr.unpack(bytes(data), allow_truncated=at, allow_exceeded=ae)
-        elif api == "mdecode":
-            d = db.decode(fr.arbitration_id, bytes(data))
-        else:
-            d = fr.decode(bytes(data))
+        d = _decode_call(fr, data, api, at, ae, db)
     except Exception as e:  # noqa
         kind = errname(e)
         if fr.is_pdu_container and kind != "frameLength":
@@ -133,10 +206,7 @@ def observe_decode(fr, data, api="decode", at=False, ae=False, db=None, _again=T
         return {"err": kind}
     if fr.is_pdu_container:
         return {"ok": "unmodelled"}
-    out = {}
-    for k, v in d.items():
-        out[k] = val_to_json(v.signal, v.raw_value)
-    return {"ok": out}
+    return _normal(fr, d)
 
 
 def observe_encode(fr, data_pairs, _again=True, _shared=None):
